@@ -14,6 +14,8 @@ structure JS where
   ops : List String := []
   base : Nat := 0          -- allocation count before the pattern started
   baseLive : Nat := 0
+  baseCtl : Nat := 0       -- control blocks alive before the pattern started
+  ctlFlagged : Bool := false
   patterns : Nat := 0
   steps : Nat := 0
   fails : Nat := 0
@@ -65,7 +67,8 @@ def step (s : JS) (line : String) : IO JS := do
       let r := init (c.toNat?.getD 0)
       let allocs := (field ws "allocs").getD 0
       let live := (field ws "live").getD 0
-      return { s with model := some r, pendingOp := none, base := allocs - r.allocs, baseLive := live - r.A }
+      return { s with model := some r, pendingOp := none, base := allocs - r.allocs, baseLive := live - r.A,
+                      baseCtl := (field ws "ctl").getD 0, ctlFlagged := false }
     | some opw =>
       let s := { s with steps := s.steps + 1, pendingOp := none }
       let g (k : String) := (field ws k).getD 0
@@ -78,6 +81,12 @@ def step (s : JS) (line : String) : IO JS := do
       let s ← if s.window == 0 && allocs > Nat.log2 (4 * s.M + 8) + 3 && !s.countFlagged then do
           let s' ← emit s true s!"oracle-fail C18 what=number_of_byte-buffer_allocations_{allocs}_exceeds_log2(4M+8)+3_although_every_part_is_dropped_before_the_refill"
           pure { s' with countFlagged := true }
+        else pure s
+      -- control blocks (Shared headers) are live heap memory too: at most one per live allocation
+      let ctl := g "ctl" - s.baseCtl
+      let s ← if ctl > s.window + 3 && !s.ctlFlagged then do
+          let s' ← emit s true s!"oracle-fail C18 what=number_of_live_control_blocks_{ctl}_exceeds_the_number_of_live_allocations_(window+3):_headers_are_leaking"
+          pure { s' with ctlFlagged := true }
         else pure s
       let s := { s with maxA := max s.maxA A, maxLive := max s.maxLive live }
       let s := if s.window == 0 && s.allocsAtBig.isNone && A ≥ 2 * s.M && A > 0 then { s with allocsAtBig := some allocs } else s
